@@ -60,12 +60,18 @@ def enumerate_cases(tier, shard, nshards):
 @st.composite
 def _cases(draw):
     n = draw(st.integers(0, 12))
+    big = draw(st.integers(0, 11)) == 0
+    if big:
+        n = draw(st.integers(21, 40))     # (a run over a few dozen devices, with the progress logger registered)
     par = draw(st.sampled_from([1, 2, 2, 2, 3, 3, 4]))
     mt = draw(st.integers(1, 5))
     nfail = draw(st.sampled_from([0, 0, 0, 1, 2]))
     fails = sorted(draw(st.sets(st.integers(0, max(0, n - 1)), max_size=nfail))) if n else []
     unp = sorted(draw(st.sets(st.integers(0, max(0, n - 1)), max_size=draw(st.sampled_from([0, 0, 0, 1, 2]))))) if n else []
     unp = [i for i in unp if i not in fails]
+    gen_task = draw(st.integers(0, 3)) == 0
+    if gen_task:
+        unp = []
     tol = draw(st.sampled_from([True, True, True, False]))
     use_run = draw(st.sampled_from([False, False, False, True]))
     style = draw(st.integers(0, 3))
@@ -79,9 +85,11 @@ def _cases(draw):
     delays = draw(st.lists(st.integers(0, 6), min_size=1, max_size=4))
     return {"n": n, "par": par, "max_tasks": mt, "fail": fails, "unpicklable": unp, "tolerate": tol, "use_run": use_run,
             "schedule": sched, "delays": delays, "fail_kind": draw(st.integers(0, 7)),
-            "callback": ({"in_thread": draw(st.booleans()),
+            "callback": ({"progress_logger": True, "raise_for": []} if (big or draw(st.integers(0, 7)) == 0) else
+                         {"in_thread": draw(st.booleans()),
                           "raise_for": sorted(draw(st.sets(st.integers(0, max(0, n - 1)), max_size=2)))}
-                         if (n and tol and not use_run and draw(st.integers(0, 3)) == 0) else None)}
+                         if (n and tol and not use_run and draw(st.integers(0, 3)) == 0) else None),
+            "gen_task": gen_task}
 
 
 def strategy(tier):
@@ -95,6 +103,10 @@ def _judge(case, out, labels):
     single = min(case["par"], n) <= 1
     unp = set(case.get("unpicklable", ())) if not single else set()
     from vf.model.poolsim import is_transient
+    gt = bool(case.get("gen_task"))
+
+    def val(i):
+        return [i * 2 + 1] if gt else i * 2 + 1
     fk = case.get("fail_kind", 0)
     fails = {i for i in case["fail"] if not is_transient(fk + i)} | unp
     cbfail = set((case.get("callback") or {}).get("raise_for", ()))
@@ -114,7 +126,7 @@ def _judge(case, out, labels):
         ok, bad = out["run_result"]
         if not case["tolerate"] and fails:
             raise Violation("failure-not-raised", "tolerate_fails=False but the failing task's error was not raised", det)
-        exp_ok = {i: i * 2 + 1 for i in range(n) if i not in fails}
+        exp_ok = {i: val(i) for i in range(n) if i not in fails}
         if single:
             ok = {k: (v["value"] if isinstance(v, dict) else v) for k, v in ok.items()}
         if ok != exp_ok or set(bad) != fails:
@@ -137,8 +149,8 @@ def _judge(case, out, labels):
         elif i in fails:
             if exc is None or ("boom-%s" % i) not in str(exc):
                 raise Violation("wrong-payload", f"id {i} should carry its task's exception, got result={res} exc={exc}", det)
-        elif res != i * 2 + 1 or exc is not None:
-            raise Violation("wrong-payload", f"id {i}: got result={res} exc={exc}, expected {i * 2 + 1}", det)
+        elif res != val(i) or exc is not None:
+            raise Violation("wrong-payload", f"id {i}: got result={res} exc={exc}, expected {val(i)}", det)
     if out["raised"] is not None:
         if case["tolerate"] or not fails:
             raise Violation("unexpected-raise", f"irun raised {out['raised']}", det)
@@ -161,8 +173,10 @@ def check(case):
         return _check_real(case)
     out = run_case(case["n"], case["par"], case["max_tasks"], case["fail"], case["tolerate"],
                    case["schedule"], case["delays"], use_run=case["use_run"], unpicklable_ids=case.get("unpicklable", ()),
-                   fail_kind=case.get("fail_kind", 0), callback=case.get("callback"))
-    if case.get("callback"):
+                   fail_kind=case.get("fail_kind", 0), callback=case.get("callback"), gen_task=bool(case.get("gen_task")))
+    if (case.get("callback") or {}).get("progress_logger"):
+        labels_cb = ["progress-logger-registered"]
+    elif case.get("callback"):
         labels_cb = ["callback-registered"] + (["callback-raises"] if case["callback"]["raise_for"] else [])
     else:
         labels_cb = []
